@@ -55,6 +55,74 @@ def exact_rate0(fre, fim, gre, gim, norm=None):
     return None if n == 0 else Fraction(1, 2) * (1 - s / n)
 
 
+
+def total_outcome(o, tau, norm):
+    """Model/C09_Total.v hom_rate_total in binary64 Python: ('panic',) | ('nan',) | ('inf',) | ('val', x)"""
+    cols, rows = o["cols"], o["rows"]
+    N = cols * rows
+    f, g = carr(o["fre"], o["fim"]), carr(o["gre"], o["gim"])
+    if len(f) < N or len(g) < N:
+        return ("panic",)
+    x0, x1, y0, y1 = (f64_of_hex(h) for h in o["xs"] + o["ys"])
+    nrm = norm if norm is not None else sum(abs(z) ** 2 for z in f)
+    s = 0.0
+    for k in range(N):
+        ws, wi = axis(x0, x1, cols, k % cols), axis(y0, y1, rows, k // cols)
+        th = (wi - ws) * tau
+        s += (f[k].conjugate() * g[k] * complex(math.cos(th), math.sin(th))).real
+    if nrm == 0:
+        return ("nan",) if s == 0 else ("inf",)
+    return ("val", 0.5 * (1.0 - s / nrm))
+
+
+def observed_outcome(x):
+    if isinstance(x, dict):
+        return ("panic",)
+    v = f64_of_hex(x)
+    if v != v:
+        return ("nan",)
+    if abs(v) == float("inf"):
+        return ("inf",)
+    return ("val", v)
+
+
+def same_outcome(a, b):
+    if a[0] != b[0]:
+        return False
+    return a[0] != "val" or abs(a[1] - b[1]) <= SLACK * max(1.0, abs(b[1]))
+
+
+def edge_oracle(ctx, o):
+    ctx.seen(("edge", o["label"], o["cols"], o["rows"], tuple(o["fre"][:4])))
+    ctx.count(f"edge:{o['label']}")
+    inp = {"label": o["label"], "cols": o["cols"], "rows": o["rows"], "signal_axis": [f64_of_hex(h) for h in o["xs"]], "idler_axis": [f64_of_hex(h) for h in o["ys"]],
+           "f": [[f64_of_hex(a), f64_of_hex(b)] for a, b in zip(o["fre"], o["fim"])], "g": [[f64_of_hex(a), f64_of_hex(b)] for a, b in zip(o["gre"], o["gim"])],
+           "tau": f64_of_hex(o["tau"]), "norm": f64_of_hex(o["norm"]) if o["norm"] else None, "taus": [f64_of_hex(t) for t in o["taus"]]}
+    want = total_outcome(o, inp["tau"], inp["norm"])
+    got = observed_outcome(o["single"])
+    if not same_outcome(got, want):
+        ctx.case_failures.append({"edge": o["label"]})
+        ctx.violation("S4", f"hom_rate outcome {got} differs from the total model {want} (case {o['label']}, {o['cols']}x{o['rows']} grid, slices of length {len(o['fre'])}, {len(o['gre'])})",
+                      {"kind": "total_model", "label": o["label"]}, dict(inp, observed=got, model=want), found_input=False)
+    taus = inp["taus"]
+    N = o["cols"] * o["rows"]
+    if not taus:
+        wants = []
+    elif len(o["fre"]) < N or len(o["gre"]) < N:
+        wants = ("panic",)
+    else:
+        full = sum(abs(z) ** 2 for z in carr(o["fre"], o["fim"]))
+        wants = [total_outcome(o, t, full) for t in taus]
+    gots = ("panic",) if isinstance(o["series"], dict) else [observed_outcome(x) for x in o["series"]]
+    ok = (wants == ("panic",)) == (gots == ("panic",))
+    if ok and wants != ("panic",):
+        ok = len(wants) == len(gots) and all(same_outcome(a, b) for a, b in zip(gots, wants))
+    if not ok:
+        ctx.case_failures.append({"edge_series": o["label"]})
+        ctx.violation("S4", f"hom_rate_series outcome {gots} differs from the total model {wants} (case {o['label']}, {o['cols']}x{o['rows']} grid, {len(taus)} delays)",
+                      {"kind": "total_model_series", "label": o["label"]}, dict(inp, observed=gots, model=wants), found_input=False)
+
+
 def arr_input(o):
     return {"cols": o["cols"], "rows": o["rows"], "signal_axis": [f64_of_hex(h) for h in o["xs"]], "idler_axis": [f64_of_hex(h) for h in o["ys"]],
             "family": o["family"], "second_array": o["gkind"],
@@ -111,6 +179,8 @@ def oracle(ctx, obs):
                 if not (taus[j] == t0 and abs(singles[j]) <= 1e-12):
                     ctx.violation("S5", f"separable profile x exp(i t0 (wi-ws)/2): rate {singles[j]!r} at tau = t0 = {t0!r}, expected 0 (dip at +t0)",
                                   {"kind": "dip_position"}, dict(inp, t0=t0, tau=taus[j], rate=singles[j]))
+        elif kind == "edge":
+            edge_oracle(ctx, o)
         elif kind == "gauss":
             sigma, t0, n = f64_of_hex(o["sigma"]), f64_of_hex(o["t0"]), o["n"]
             ctx.seen(("gauss", o["sigma"], o["t0"], n))
@@ -173,12 +243,17 @@ def oracle(ctx, obs):
                                   {"kind": "setup_value0", "setup": o["setup"]}, dict(rep0, rate=ss[0], expected=float(x)))
 
 
-IMPORTS = "From Coq Require Import QArith Qabs List ZArith Bool.\nFrom SpdVerif Require Import Model.FinSum Model.Hom.\nImport ListNotations.\n"
+IMPORTS = "From Coq Require Import QArith Qabs List ZArith Bool.\nFrom SpdVerif Require Import Model.FinSum Model.Hom Model.Hom2 Model.C10_Pyth.\nImport ListNotations.\n"
 DEFS = """
 Definition chk0 (N : nat) (f g : list (cx Q)) (series0 single0 normed0 norm tol : Q) :=
   let r := hom_rate_Q0 N f g in
   (Qle_bool (Qabs (r - series0)) tol, Qle_bool (Qabs (r - single0)) tol,
    Qle_bool (Qabs (hom_rate_Q0_normed N f g norm - normed0)) tol, r).
+"""
+
+DEFS += """
+Definition chkp (n : nat) (f g : list (cx Q)) (m0 k r : Z) (rate tol : Q) :=
+  let x := hom_rate_Qpyth n f g m0 k r in (Qle_bool (Qabs (x - rate)) tol, x).
 """
 
 ITAC = ("Import ListNotations.\n"
@@ -220,10 +295,29 @@ def correspondence(ctx, obs, max_cells_q, max_cells_i, max_goals):
                                    f"{coq_hex(o['taus'][j])} None - {coq_hex(o['singles'][j])}) <= {TOLI}", "hom_case"))
                 gmeta[cid] = (o, j)
                 break
+    for o in obs:
+        if o["kind"] != "pyth" or not isinstance(o["rate"], str):
+            continue
+        cid = f"y{len(exprs)}"
+        z = lambda v: f"({v})%Z"
+        exprs.append((cid, f"chkp {o['n']} {clist(o['fre'], o['fim'])} {clist(o['gre'], o['gim'])} {z(o['m0'])} {z(o['k'])} {z(o['r'])} {qlit(frac_of_hex(o['rate']))} {qlit(TOL0)}"))
+        meta[cid] = o
+        ctx.seen(("pyth", o["n"], o["k"], o["r"], o["m0"], o["h"], tuple(o["fre"][:6])))
+        ctx.count(f"pyth:n{o['n']}")
     res = run_compute_cases(ctx, "C09", IMPORTS, DEFS, exprs, shards=min(NCPU, max(1, len(exprs) // 3)))
     ctx.cov["obligations"] += len(exprs)
     for cid, _ in exprs:
         o = meta[cid]
+        if o["kind"] == "pyth":
+            mp = re.match(r"\((true|false), (.*)\)$", res.get(cid) or "")
+            if mp and mp.group(1) == "true":
+                ctx.cov["discharged"] += 1
+                continue
+            ctx.case_failures.append({"case": cid})
+            ctx.violation("S4", f"delay {o['m0']} atan(4/3)/h = {fl(o['tau'])!r}: exact model rate with Pythagorean phases {mp.group(2) if mp else res.get(cid)} vs hom_rate {fl(o['rate'])!r} "
+                                f"disagree beyond 1e-12 ({o['n']}x{o['n']}, k={o['k']}, r={o['r']})", {"kind": "value", "family": "pyth"},
+                          dict(arr_input(dict(o, family="pyth", gkind="independent")), tau=fl(o["tau"]), rate=fl(o["rate"])), found_input=False)
+            continue
         m = re.match(r"\((true|false), (true|false), (true|false), (.*)\)$", res.get(cid) or "")
         sq_sym = o["cols"] == o["rows"] and o["xs"] == o["ys"] and o["gkind"] == "transpose"
         if not m:
@@ -258,7 +352,7 @@ def run(ctx):
     proved = (not msgs) and prove(ctx, "C09")
     quick = ctx.tier == "quick"
     ncases, max_side, nsetup, ngauss = (84, 8, 9, 6) if quick else (350, 16, 36, 30)
-    obs = run_harness(ctx, binp, ["c09", ctx.seed, ncases, max_side, nsetup, ngauss])
+    obs = run_harness(ctx, binp, ["c09", ctx.seed, ncases, max_side, nsetup, ngauss, 36 if quick else 120])
     oracle(ctx, obs)
     for o in [x for x in obs if x["kind"] == "arr"][8:10]:
         ctx.sample({"family": o["family"], "cols": o["cols"], "rows": o["rows"], "taus": [fl(t) for t in o["taus"]], "rates": [fl(x) for x in o["singles"]]})
@@ -288,7 +382,9 @@ def run(ctx):
         "series = individually computed rates": "proved (C09_series) + measured Rust-vs-Rust (1e-12)",
         "setup-level = array-level on sampled amplitudes and exchanged-argument counterpart": "proved structurally with the amplitude as an oracle "
             "(C09_setup_is_array_level, C09_setup_exchanged_is_transpose); measured Rust-vs-Rust (1e-9)",
-        "binary64 result vs real model": "validated_only (vm_compute at zero delay 1e-12, interval goals at non-zero delays 1e-10)"}
+        "panic / NaN / infinity paths (short slices, zero norm, empty delay list)": "proved on the total model (C09_total_panic_iff, C09_total_default_norm, "
+            "C09_total_zero_norm, C09_series_total_cases, C09_total_is_model); implementation exercised under catch_unwind and compared with the model's outcome",
+        "binary64 result vs real model": "validated_only (vm_compute at zero delay and, with Pythagorean phases, at delays m0 atan(4/3)/h, 1e-12; interval goals at other delays 1e-10)"}
     return finish(ctx, assumptions=[
         "arrays have the grid's length (as every caller in the crate passes); shorter arrays panic on indexing, not modelled",
         "the setup's joint spectral amplitude is an arbitrary function J(ws, wi) (oracle); hom_time_delay is an input",
